@@ -5,6 +5,7 @@ class C01(TieCheck):
     pid = "C01"
     area = "Route"
     props = ["Props_C01.v"]
+    coq_targets = ["Corr.vo"]
     harness = "c01"
     extra_trust = ["model M1: coq/Route/Lookup.v transliterates lookupByPath / lookupByDomain / roots.lookup (node.go:85-600) over pure trees (coq/Route/Node.v); specification S: coq/Route/Spec.v (matcher over the list of registered patterns)",
                    "the tree each case is evaluated on is the dump of the real router (verif_export.go); the stripped host is taken from netutil.StripHostPort (oracle input)"]
